@@ -10,6 +10,7 @@ import gen as G
 import verde as vd
 
 ID = "C03"
+TRANSLATED = True      # Gen/Kernels.lean is regenerated from /repo by py2lean.py and bridged to the model in Props/C03.lean
 FILES = ["verde/spline.py", "verde/vector.py", "verde/trend.py", "verde/synthetic.py", "verde/scipygridder.py"]
 RULE = ("corpus of dangerous distances {0, 1e-300, 1e-12, 1/2, 1-eps, 1, 1+eps, e, 1e4, 1e8} x mindist {0, 1e-3, 1, 1e4} x Poisson in [-1, 1] + seeded "
         "point/force sets: Spline.jacobian / predict (parameters set externally), VectorSpline2D.jacobian / predict, Trend.jacobian / predict for degrees "
